@@ -309,6 +309,7 @@ type scenario struct {
 	jitterUs   int
 	wire       int // > 0: run over the real kafka.Transport against this many byte-level brokers
 	moves      []leaderMove
+	viaNew     bool                     // the Writer is built by the deprecated constructor NewWriter(WriterConfig)
 	defBal     bool                     // Writer.Balancer left unset: the default round-robin (one goroutine: message j of the run goes to partition j mod n)
 	writeTO    time.Duration            // > 0: Writer.WriteTimeout
 	stallAt    int                      // wire: the broker stops reading in the middle of the n-th produce request to arrive (special "stallwrite")
@@ -798,6 +799,38 @@ func (b *builder) defaultBalancer(i int) *scenario {
 	return sc
 }
 
+// viaNewWriter: the Writer is built by NewWriter(WriterConfig) with BatchSize, MaxAttempts and BatchBytes all different
+// from each other and from the defaults; calls longer than BatchSize (batches must close at exactly BatchSize),
+// messages that do not fit BatchBytes together, and a fault script that needs exactly MaxAttempts attempts.
+func (b *builder) viaNewWriter(i int) *scenario {
+	r := b.r
+	bs := []int{2, 3, 5, 7}[i%4]
+	ma := []int{4, 1, 3, 2}[i%4]
+	u := 50 + r.Intn(20)
+	sc := &scenario{name: "newwriter" + strconv.Itoa(i), bs: bs, bb: int64(u*(bs+1+i%2) + 5), ma: ma, async: i%3 == 2, compl: false, wtopic: "t",
+		timeout: 2 * time.Millisecond, nparts: map[string]int{"t": 1 + i%2}, faults: map[tpKey][]fault{}, closeAt: -1, viaNew: true}
+	var calls []callSpec
+	for c := 0; c < 2+r.Intn(2); c++ {
+		b.nextC++
+		cs := callSpec{id: b.nextC}
+		for k := 0; k < bs+1+r.Intn(2*bs); k++ {
+			cs.msgs = append(cs.msgs, b.mkMsg(u, "", 0, false))
+		}
+		calls = append(calls, cs)
+	}
+	sc.callers = [][]callSpec{calls}
+	var script []fault
+	for k := 0; k < ma-1; k++ {
+		script = append(script, fault{kind: "kerr", code: 6})
+	}
+	script = append(script, fault{kind: "ok"})
+	for k := 0; k < ma; k++ {
+		script = append(script, fault{kind: "lostack", code: 1})
+	}
+	sc.faults[tpKey{"t", 0}] = script
+	return sc
+}
+
 // tinyTimeout: BatchTimeout of microseconds with BatchSize 2 and odd message counts, while every batch creation is
 // stalled inside the partition mutex: the linger timer of a batch expires while writeMessages fills and queues it and
 // opens the next batch, so the timer branch of awaitBatch runs for a batch that is no longer attached
@@ -1034,6 +1067,17 @@ func run(sc *scenario, out *bufio.Writer) {
 		BatchSize: sc.bs, BatchBytes: sc.bb, BatchTimeout: sc.timeout, MaxAttempts: sc.ma,
 		WriteBackoffMin: 200 * time.Microsecond, WriteBackoffMax: time.Millisecond,
 		RequiredAcks: kafka.RequireOne, Async: sc.async,
+	}
+	if sc.viaNew {
+		// the deprecated construction path: the options travel through WriterConfig and NewWriter's field-by-field copy
+		nw := kafka.NewWriter(kafka.WriterConfig{
+			Brokers: []string{"fake:9092"}, Topic: sc.wtopic, Balancer: w.Balancer,
+			BatchSize: sc.bs, BatchBytes: int(sc.bb), BatchTimeout: sc.timeout, MaxAttempts: sc.ma,
+			RequiredAcks: int(kafka.RequireOne), Async: sc.async,
+		})
+		nw.Transport = f
+		nw.WriteBackoffMin, nw.WriteBackoffMax = w.WriteBackoffMin, w.WriteBackoffMax
+		w = nw
 	}
 	if sc.defBal {
 		w.Balancer = nil
@@ -1734,6 +1778,9 @@ func main() {
 	}
 	for i := 0; i < 6*extra && failedScenarios < 3; i++ {
 		run(b.defaultBalancer(i), out)
+	}
+	for i := 0; i < 8*extra && failedScenarios < 3; i++ {
+		run(b.viaNewWriter(i), out)
 	}
 	for i := 0; i < 3+extra && failedScenarios < 3; i++ {
 		run(b.trickleFamily(i), out)
